@@ -63,6 +63,7 @@ REQUIRE = {
     "clause_content_rows": 20000,
     "clause_cursor_inside": 300,
     "skipped_invalid": 1,
+    "directed_control_text_trees": 50,
     "mode:utf8": 100,
     "mode:wide": 100,
     "mode:narrow": 100,
@@ -544,6 +545,9 @@ def handle_finding(env, recipe, f, root_size, root_focus, seen_prekeys, max_per_
 # ---------------------------------------------------------------- driver
 
 
+CONTROL_TEXTS = ["a\rb", "a\tb", "ab\x0bcd", "a\x0cb", "x\x1cy", "x\x1dy\x1ez", "a\x85b", "a\u2028b", "a\u2029bc", "\r", "a\r\nb", "\ta", "a\x00b\nc", "ab\x7f"]
+
+
 def drive_tree(env, recipe, mode, sizes_for, seen_prekeys, max_per_prekey):
     """all sizing modes x sizes x focus for one recipe"""
     ctx = env.ctx
@@ -681,6 +685,29 @@ def run(ctx):
             if k <= 3:
                 ctx.sample({"mode": mode, "kind": kind, "shape": T.describe(recipe, 3, True, mode)})
             drive_tree(env, recipe, mode, sizes_for, seen_prekeys, max_per_prekey)
+        # 3. directed: texts with characters that str.splitlines() treats as line ends but the layout does not,
+        #    and other zero-width controls (after the random phase: the seed pool's workloads stay as they were)
+        j = 0
+        for mode in T.ENCODINGS:
+            for txt in CONTROL_TEXTS:
+                for by in (False, True):
+                    if by and any(ord(c) > 255 for c in txt):
+                        continue
+                    if not by and mode != "utf8":
+                        # a str control character is 0 columns by the str width table but one column once encoded
+                        # to a single byte: the design-level mismatch recorded as a known finding under C04
+                        # (C03 excludes it for the same reason); bytes texts cover these encodings
+                        continue
+                    for align, wrap in (("left", "space"), ("right", "any"), ("center", "clip")):
+                        j += 1
+                        if not ctx.mine(j):
+                            continue
+                        if ctx.quick and (j // ctx.nshards) % 2:
+                            continue
+                        val = {"bytes": txt} if by else txt
+                        leaf = {"t": "Text", "text": val, "align": align, "wrap": wrap}
+                        drive_tree(env, leaf, mode, sizes_for, seen_prekeys, max_per_prekey)
+                        ctx.count("directed_control_text_trees")
     finally:
         env.m1.uninstall()
         urwid.util.set_encoding(old_enc)
